@@ -272,7 +272,7 @@ package pointindex
 //@ macro bbMinY(tms) = trunc(bboxBL(tms, 0)[1] * 10000000000)
 //@ macro bbMaxX(tms) = trunc(bboxTR(tms, 0)[0] * 10000000000)
 //@ macro bbMaxY(tms) = trunc(bboxTR(tms, 0)[1] * 10000000000)
-//@ macro indexable(tms, id) = (hasKey(tms.TileMatrices, 0) ==> !isNil(tms.TileMatrices[0].PointOfOrigin) && isNil(tms.TileMatrices[0].VariableMatrixWidths))
+//@ macro indexable(tms, id) = (hasKey(tms.TileMatrices, 0) ==> !isNil(tms.TileMatrices[0].PointOfOrigin) && len(tms.TileMatrices[0].VariableMatrixWidths) == 0)
 //@     && 0 <= id && 1 <= tms.TileMatrices[0].TileWidth && tms.TileMatrices[0].TileWidth <= 1099511627776 && tmLevel(tms, id) <= 32
 //@     && bbOK(tms) && bbMaxX(tms) - bbMinX(tms) >= pow2(tmLevel(tms, id))
 //@ func FromTileMatrixSet
@@ -286,3 +286,10 @@ package pointindex
 //@   ensures[C03,C08] result1 == nil ==> result0.deepestLevel == level && result0.deepestSize == pow2(level) && result0.deepestRes == res
 //@   ensures[C03] result1 == nil ==> result0.intExtent == arr(bbMinX(tileMatrixSet), bbMinY(tileMatrixSet), bbMaxX(tileMatrixSet), bbMaxY(tileMatrixSet))
 //@   ensures[C03] result1 == nil ==> result0.z == 0 && result0.intCentroid == arr(result0.intExtent[0] + pixSpan(result0, 0) / 2, result0.intExtent[1] + pixSpan(result0, 0) / 2)
+
+// DeviationStats: formats a report; what matters to validation is that it does not panic and fails when matrix 0
+// is missing. (PrintWithDecimals only formats a number; it is trusted not to panic for n >= Precision + 1.)
+//@ func DeviationStats
+//@   prelude arith tmsaxis
+//@   requires indexable(tms, deepestTMID)
+//@   ensures[C14] err == nil ==> hasKey(tms.TileMatrices, 0)
